@@ -9,6 +9,10 @@ mod c17;
 mod c18;
 mod c19;
 mod c20;
+mod cfggen;
+mod pkg;
+mod pkgobs;
+mod rawhdr;
 
 fn main() {
     let args = util::Args::parse();
@@ -19,6 +23,7 @@ fn main() {
         "c17" => c17::run(&args),
         "c17-level" => c17::run_level_child(&args),
         "c18" => c18::run(&args),
+        "pkg" => pkg::run(&args),
         "c19" => c19::run(&args),
         "c20" => c20::run(&args),
         other => {
